@@ -52,6 +52,9 @@ func c04body(c c04cfg) func(x *vsched.Exec) {
 						return false
 					}
 					up := strings.ToUpper(argv[0])
+					if up == "PING" && c.faultOnly == "PING" {
+						return true
+					}
 					if up == "PING" || up == "HELLO" || up == "CLIENT" && len(argv) > 1 && strings.ToUpper(argv[1]) != "CACHING" {
 						return false
 					}
@@ -121,6 +124,18 @@ func c04body(c c04cfg) func(x *vsched.Exec) {
 				call.got, call.err = []string{s}, err
 			case "recv":
 				call.err = e.client.Receive(ctx, b.Subscribe().Channel("ch").Build(), func(m PubSubMessage) {})
+			case "unsub":
+				// a single pipelined command that the reader dequeues when the unsubscribe push arrives, before its PONG
+				vsched.Point("wait-sub", func() bool {
+					for _, ss := range e.srv.Sessions {
+						if len(ss.Subs) > 0 {
+							return true
+						}
+					}
+					return closed
+				})
+				call.err = e.client.Do(ctx, b.Unsubscribe().Channel("ch").Build()).Error()
+				call.kind = "unsub"
 			case "blpop":
 				call.tags = []string{"list"}
 				arr, err := e.client.Do(ctx, b.Blpop().Key("list").Timeout(0).Build()).AsStrSlice()
@@ -193,9 +208,20 @@ func c04body(c c04cfg) func(x *vsched.Exec) {
 		faulted := countFaults() > 0
 		for _, cl := range calls {
 			out = append(out, fmt.Sprintf("%s:%s=%v/%s", cl.who, cl.kind, cl.got, vwErrStr(cl.err)))
+			if cl.kind == "unsub" {
+				continue // returns nil or the connection error; what matters is that it returns (deadlock detection)
+			}
 			if cl.kind == "recv" || cl.kind == "blpop" {
 				// these only return when the connection fails or the client is closed: they must carry an error then
-				if cl.err == nil && cl.kind == "recv" {
+				hasUnsub := false
+				for _, ops := range c.callers {
+					for _, op := range ops {
+						if op == "unsub" {
+							hasUnsub = true
+						}
+					}
+				}
+				if cl.err == nil && cl.kind == "recv" && !hasUnsub {
 					x.Fail("blocking call returned without error although nothing was delivered", "%s %s; %v", cl.who, cl.kind, out)
 				}
 				continue
@@ -244,6 +270,7 @@ func TestVerif_C04(t *testing.T) {
 			{name: "drop/cachesame|cachesame", callers: [][]string{{"cachesame"}, {"cachesame"}}, fault: "drop"},
 			{name: "drop/cache|do", callers: [][]string{{"cache"}, {"do"}}, fault: "drop"},
 			{name: "drop/recv|do", callers: [][]string{{"recv"}, {"do"}}, fault: "drop", faultOnly: "ECHO"},
+			{name: "drop/recv|unsub", callers: [][]string{{"recv"}, {"unsub"}}, fault: "drop", faultOnly: "PING"},
 			{name: "drop/blpop|do", callers: [][]string{{"blpop"}, {"do"}}, fault: "drop", faultOnly: "BLPOP"},
 			{name: "stall/do|do", callers: [][]string{{"do"}, {"do"}}, fault: "stall"},
 			{name: "stall/always/cache|do", callers: [][]string{{"cache"}, {"do"}}, fault: "stall", always: true},
